@@ -46,7 +46,7 @@ Section Top.
 
   (** parallel_mergesort: the result is a permutation of the input in non-decreasing comparator
       order; no piece is negative or out of range and no window leaves the array. *)
-  Theorem pms_sorted_permutation sampling os p input : 1 <= os -> 1 <= p ->
+  Theorem pms_sorted_permutation sampling os p input : (sampling = true -> 1 <= os) -> 1 <= p ->
     let r := pms sampling os p input in
     Permutation (res_array r) input /\ SS ltb (res_array r) /\ res_ok r = true.
   Proof.
@@ -62,7 +62,7 @@ Section Top.
   Qed.
 
   (** the output windows of the threads are consecutive, start at 0 and end at n *)
-  Theorem pms_windows_partition sampling os p0 input : 1 <= os -> 1 <= p0 -> 2 <= length input ->
+  Theorem pms_windows_partition sampling os p0 input : (sampling = true -> 1 <= os) -> 1 <= p0 -> 2 <= length input ->
     let w := res_windows (pms sampling os p0 input) in
     let p := clamp_threads (length input) p0 in
     length w = p /\ fst (nth 0 w (0, 0)) = 0 /\
@@ -78,7 +78,7 @@ Section Top.
   Hypothesis Hlsort_stable : forall l, lsort l = stable_sort ltb l.
   Hypothesis Hmerge_stable : forall seqs, Forall (SS ltb) seqs -> mmerge seqs = smerge ltb seqs.
 
-  Theorem pms_stable sampling os p input : 1 <= os -> 1 <= p ->
+  Theorem pms_stable sampling os p input : (sampling = true -> 1 <= os) -> 1 <= p ->
     res_array (pms sampling os p input) = stable_sort ltb input.
   Proof.
     intros Hos Hp. destruct (Nat.le_gt_cases (length input) 1) as [Hn|Hn].
@@ -132,7 +132,7 @@ Qed.
 (** The extracted model, run by the correspondence check on the same inputs as the C++ code, returns
     the std::stable_sort arrangement with all its sanity flags set — for every input, thread count,
     oversampling factor, splitting strategy and comparator direction. *)
-Theorem pms_ref_correct rev sampling os p input : 1 <= os -> 1 <= p ->
+Theorem pms_ref_correct rev sampling os p input : (sampling = true -> 1 <= os) -> 1 <= p ->
   res_array (pms_ref rev sampling os p input) = stable_sort_ref rev input /\
   res_ok (pms_ref rev sampling os p input) = true.
 Proof.
